@@ -175,6 +175,8 @@ partial def bexpr : P BExpr := do
   | "sge" => do let k ← hexStr; pure (.sge k (← int))
   | "gge" => do let k ← hexStr; pure (.gge k (← int))
   | "even" => pure .even
+  | "posge" => pure (.posge (← int))
+  | "tlen" => pure (.tlen (← int))
   | "bnot" => pure (.bnot (← bexpr))
   | _ => throw s!"bad BEXPR tag '{t}'"
 
